@@ -13,7 +13,7 @@ import math
 import numpy as np
 
 from vkit import lens as L
-from vkit import monitors
+from vkit import monitors, suite_monitor
 
 ID = 'C01'
 RULE = ('random prescriptions appended in index order (1-12 interfaces, every surface type, infinite/finite object, '
@@ -58,6 +58,10 @@ def shard_finish(rec):
 def sval(rng, lo, hi, signed=True):
     v = L.loguniform(rng, lo, hi)
     return float(-v if signed and rng.random() < 0.5 else v)
+
+
+def fixed_cases(tier):
+    return [dict(kind='repo-suite', tests=(['tests'] if tier == 'thorough' else ['tests/test_rays.py', 'tests/test_optic.py', 'tests/test_standard_surface.py', 'tests/test_wavelength.py', 'tests/test_coatings.py']))]
 
 
 def gen_case(rng, tier, i):
@@ -269,6 +273,10 @@ def compare(rec, clause, live, shadow, scale, what, key=None):
 
 
 def check_case(case, rec):
+    if case.get('kind') == 'repo-suite':
+        suite_monitor.record(rec, suite_monitor.run(('stop', 'primary'), case['tests']),
+                             ['C01.at-most-one-stop', 'C01.exactly-one-primary'])
+        return
     spec = case['spec']
     rec.cls(*(case.get('classes') or ['axial']))
     rec.cls('object-infinite' if spec['obj_t'] == 'inf' else 'object-finite', f"K-{min(len(spec['surfaces']), 12)}")
